@@ -1,2 +1,2 @@
 SPECIFICATION TSpec
-INVARIANTS SOutcome
+INVARIANTS SOutcome SPrevFlag SLog
